@@ -86,6 +86,11 @@ func (setup *SetupServerController) Handle(in util.Container) (out util.Containe
 		return nil, errInvalidPairStep(seq)
 	}
 
+	if err != nil {
+		// A failed step ends the pairing attempt, the client has to start again
+		setup.reset()
+	}
+
 	return out, err
 }
 
